@@ -136,7 +136,7 @@ def run():
     # table lemmas needed by the argument (same obligations as in C14, restricted to what C08 uses)
     wyobs = tabvc.run_family(tabvc.wyckoff_obligations, list(range(1, 231)))
     rep.obligations.extend(o for o in wyobs if o.id.split("[")[0] in ("wy.expr=matrix", "wy.integer", "wy.variables", "wy.orbit", "wy.shape"))
-    sections_parallel(rep, [("flag", _flag), ("wrapvalues", _wrapvalues), ("guard", _guard), ("maps", _maps)])
+    sections_parallel(rep, [("flag", _flag), ("wrapvalues", _wrapvalues), ("guard", _guard), ("maps", _maps), ("twod", _twod)])
     rep.extra["exhaustive"] = True
     rep.extra["explanation"] = ("for every tabulated position with free parameters the real solve loop and the real test-position construction are "
                                 "executed with symbolic parameters (all x,y,z); the guard of the enclosing function carries the post-condition")
@@ -287,6 +287,28 @@ def _guard(rep):
 
 
 
+def _twod(rep):
+    """two-dimensional inputs: the sets are formed from the conventional system that get_conventional_system hands out and the letters it
+    stored; the letters must describe those positions. (Refuted on the unchanged tree for every 2D input: known finding, DESIGN.md I.6b.)"""
+    from props import C11
+    from engine.common import Report as _R
+    tmp = _R("tmp")
+    C11.LETTERS_VS_POSITIONS["on"] = True
+    try:
+        C11._conventional(tmp)
+    finally:
+        C11.LETTERS_VS_POSITIONS["on"] = False
+    n = 0
+    for ob in tmp.obligations:
+        if ob.id.endswith("letters-refer-to-the-positions-handed-out"):
+            ob.id = "twod." + ob.id
+            ob.witness = {"twod": True}
+            rep.add(ob)
+            n += 1
+    if n == 0:
+        raise Unsupported("the 2D branch of get_conventional_system produced no letters-vs-positions obligation")
+
+
 def _maps(rep):
     """the letters and orbit labels of the conventional atoms are those of their crystallographic orbit - not the equivalences of the cell in
     which the crystal was given (which split orbits in supercells and make the parameter search fail); shared with C12/C07"""
@@ -298,9 +320,38 @@ def replay_key(ob):
     return "%s-%s" % (w.get("sg"), w.get("letter"))
 
 
+def replay_twod():
+    """native: Wyckoff sets of 2D materials; the representative with the reported parameters must be the position of an atom of the set
+    in the conventional system the analyzer hands out"""
+    from ase.build import graphene, mx2
+    from matid.symmetry.symmetryanalyzer import SymmetryAnalyzer
+    fails = []
+    for name, lay in (("MoS2 monolayer (ase.build.mx2, a=3.18, thickness=3.19, vacuum=8)", mx2("MoS2", a=3.18, thickness=3.19, vacuum=8)), ("graphene (ase.build.graphene, vacuum=8)", graphene(vacuum=8))):
+        lay.set_pbc([True, True, False])
+        a = SymmetryAnalyzer(lay)
+        conv = a.get_conventional_system()
+        sp = conv.get_scaled_positions(wrap=False)
+        for ws in a.get_wyckoff_sets_conventional(return_parameters=True):
+            vals = {"x": ws.x or 0.0, "y": ws.y or 0.0, "z": ws.z or 0.0}
+            p = []
+            for comp in ws.representative:
+                coef, const = tabvc.parse_expr(comp)
+                p.append(float(const) + sum(float(coef[v]) * vals[v] for v in "xyz"))
+            d = sp[ws.indices] - np.array(p)
+            d[:, :2] = (d[:, :2] + 0.5) % 1.0 - 0.5  # lattice translations exist along the two periodic directions only
+            dist = np.linalg.norm(d @ np.array(conv.get_cell()), axis=1).min()
+            if dist > 0.1:
+                fails.append({"structure": name, "set": "%s %s" % (ws.wyckoff_letter, ws.element), "representative": list(ws.representative), "parameters": (ws.x, ws.y, ws.z),
+                              "observed": "nearest atom of the set in the conventional system is %.3f A away (scaled positions of the set: %s)" % (dist, np.round(sp[ws.indices], 4).tolist())})
+                break
+    return {"reproduced": bool(fails), "failing_inputs": fails[:3]}
+
+
 def replay(ob):
     from props import table_replay as tr
     w = ob.witness or {}
+    if ob.id.startswith("twod."):
+        return replay_twod()
     if "sg" in w and "letter" in w:
         r = tr.replay_wyckoff_params(w["sg"], w["letter"])
         if r.get("reproduced"):
